@@ -302,7 +302,23 @@ fn gen_wand_query(rng: &mut StdRng) -> Value {
         ix.into_iter().map(|i| json!({"k":"term","f":"body","t":format!("b{i}"),"opt":"freq"})).collect()
     };
     let n = rng.random_range(4..=6);
-    match rng.random_range(0..12) {
+    let w = |x: String| json!({"k":"term","f":"body","t":x,"opt":"freq"});
+    match rng.random_range(0..16) {
+        12..=15 => {
+            // unions of 3..6 terms mixing everywhere-frequent words, words whose lists end inside the segment and rare strong
+            // words: a scorer gets exhausted by the pivot seek of block-WAND while the others go on
+            let k = rng.random_range(3..=6);
+            let mut ws: Vec<String> = vec![format!("c{}", rng.random_range(0..4)), format!("g{}", rng.random_range(0..3))];
+            while ws.len() < k {
+                let x = match rng.random_range(0..6) { 0 => format!("c{}", rng.random_range(0..4)), 1 => format!("g{}", rng.random_range(0..3)),
+                                                        _ => format!("b{}", rng.random_range(0..8)) };
+                if !ws.contains(&x) {
+                    ws.push(x);
+                }
+            }
+            ws.shuffle(rng);
+            qlib::bool_json(ws.into_iter().map(|x| json!({"o":"should","q":w(x)})).collect(), None)
+        }
         0..=4 => qlib::bool_json(distinct(rng, n).into_iter().map(|q| json!({"o":"must","q":q})).collect(), None),
         5..=7 => qlib::bool_json(distinct(rng, n).into_iter().map(|q| json!({"o":"should","q":q})).collect(), None),
         8 => json!({"k":"boost","b":2.0,"q":qlib::bool_json(distinct(rng, n).into_iter().map(|q| json!({"o":"must","q":q})).collect(), None)}),
